@@ -30,7 +30,7 @@ ASSUMPTIONS = [
 ]
 REQUIRED = ["target:leaf", "target:item-leaf", "target:dict-entry", "target:list-item", "target:subconfig", "route:setattr",
             "route:setitem", "route:ctor", "route:load_tree", "route:loads", "route:container", "route:inplace", "depth>=2", "raised",
-            "target:include@depth0", "target:include@depth1", "target:include@depth2", "failed-reoffer", "takeover", "validator:odd-exception-type", "offered-instance"]
+            "target:include@depth0", "target:include@depth1", "target:include@depth2", "failed-reoffer", "held-reoffered:tuple", "held-reoffered:rejected", "held-reoffered:accepted", "takeover", "validator:odd-exception-type", "offered-instance"]
 LEVEL_TEXT = (
     "Generated schemas x targets x rejected values x routes; the raised exception's type and reference path are "
     "compared with a model path computed from the spec; kills mutants that re-raise the field's own exception, "
@@ -134,7 +134,7 @@ def strategy(tier):
                          else st.sampled_from(["a", "k1", "Key", "x.y", "", "1"])),
                 "good": st.lists(specs.values(t[2]["item"]) if kind == "list-item" else st.none(), min_size=3, max_size=3),
                 "built_by": st.sampled_from(["assign", "load_tree"]),
-                "reoffer": st.booleans(),
+                "reoffer": st.sampled_from([False, False, True, "tuple"]),
                 "shift": st.lists(st.sampled_from(["del0", "pop", "insert0", "reverse", "append", "swap"]), min_size=0 if kind != "item-leaf" else 1, max_size=3),
             })
         # choose the target class first: plain leaves outnumber everything else by far
@@ -189,6 +189,24 @@ def exhaustive(tier):
             for where in ("top", "deeper"):
                 for route in ("assign", "ctor", "append", "insert", "setitem", "extend"):
                     yield {"mode": "offered-instance", "configtype": configtype, "place": place, "where": where, "route": route}
+    # an include field at every depth whose value is rejected while the document is loaded (the named file is missing, is a
+    # directory, is not text of the format; the value is not a string), per format and load route
+    for depth in (0, 1, 2, 3):
+        for cause in ("missing-file", "directory", "not-a-string", "not-the-format"):
+            for fmt in ("json", "yaml", "xml", "bson", "pickle"):
+                for route in ("loads", "load-file"):
+                    yield {"mode": "include-rejection", "depth": depth, "cause": cause, "fmt": fmt, "route": route}
+    # configurations a list HOLDS are offered again (in every order, as a list or a tuple, through every assignment
+    # route) in a whole-list assignment that is rejected or accepted; a value rejected on a held item afterwards names
+    # the index the item has in the list the configuration holds
+    import itertools
+    for configtype in (False, True):
+        for place in ("root", "nested"):
+            for form in ("list", "tuple"):
+                for route in ("setattr", "setitem-path", "slice-assign", "iadd", "extend"):
+                    for perm in itertools.permutations(range(3)):
+                        for bad_at in (None, 0, 1, 3):
+                            yield {"mode": "held-reoffered", "configtype": configtype, "place": place, "form": form, "route": route, "perm": list(perm), "bad_at": bad_at}
 
 
 def _offered_instance_case(case, R):
@@ -262,6 +280,129 @@ def _offered_instance_case(case, R):
     got = err.ref_path
     R.check(got == want, "path", site, lambda: "offered item instance with %s unset: error names %r, the offending field is %r" % (bad_field, got, want))
     R.check(str(err).startswith(got), "text", "starts-with-path", lambda: "message %r does not start with the path %r" % (str(err)[:120], got))
+
+
+def _include_rejection_case(case, R):
+    cc = sandbox._state["cc"]
+    depth, cause, fmt, route = case["depth"], case["cause"], case["fmt"], case["route"]
+    keys = ["outer", "middle", "inner"][:depth]
+    schema = cc.Schema()
+    node = schema
+    for k in keys:
+        node = getattr(node, k)
+        node.label = cc.StringField(default="l")
+    node.include = cc.IncludeField()
+    schema.other = cc.IntField(default=1)
+    want = ".".join(keys + ["include"])
+    R.label("include-rejection", "include-rejection@depth%d" % depth)
+    R.nontrivial = depth >= 2
+    with sandbox.CaseDir() as d:
+        if cause == "missing-file":
+            value = os.path.join(d, "no-such-file." + fmt)
+        elif cause == "directory":
+            value = os.path.join(d, "a-directory")
+            os.makedirs(value)
+        elif cause == "not-the-format":
+            value = os.path.join(d, "garbage." + fmt)
+            with open(value, "wb") as fp:
+                fp.write(b"\x00\xff{[<not a document of any format")
+        else:
+            value = 5
+        tree = {"include": value}
+        for k in reversed(keys):
+            tree = {k: tree}
+        cfg = schema()
+        doc = cc.ConfigFormat.get(fmt).dumps(cfg, tree)
+        try:
+            if route == "loads":
+                cfg.loads(doc, fmt)
+            else:
+                target = os.path.join(d, "main." + fmt)
+                with open(target, "wb") as fp:
+                    fp.write(doc)
+                cfg.load(target, fmt)
+            err = None
+        except Exception as exc:
+            err = exc
+    site = "include-rejection:%s:%s" % (cause, route)
+    if err is None:
+        R.label("include-rejection:accepted")  # (whether this value is rejected at all is C18's business)
+        return
+    if not R.check(isinstance(err, cc.ValidationError), "type", site + ":" + type(err).__name__, lambda: "rejection surfaced as %s: %r" % (type(err).__name__, err)):
+        return
+    got = err.ref_path
+    R.check(got == want, "path", site, lambda: "%s document, include field at depth %d rejected (%s): error names %r, the offending field is %r" % (fmt, depth, cause, got, want))
+    R.check(str(err).startswith(got or "\x00"), "text", "starts-with-path", lambda: "message %r does not start with the path %r" % (str(err)[:120], got))
+
+
+def _held_reoffered_case(case, R):
+    cc = sandbox._state["cc"]
+    item = cc.Schema()
+    item.name = cc.StringField(required=True)
+    item.port = cc.IntField(default=1)
+    item.tls.level = cc.IntField(default=1)
+    Item = cc.make_type(item, "HeldSrv", module=__name__) if case["configtype"] else item
+    schema = cc.Schema()
+    if case["place"] == "root":
+        schema.servers = cc.ListField(Item)
+        prefix = "servers"
+        owner = lambda cfg: cfg
+    else:
+        schema.site.group.servers = cc.ListField(Item)
+        prefix = "site.group.servers"
+        owner = lambda cfg: cfg.site.group
+    cfg = schema()
+    owner(cfg).servers = [{"name": "a"}, {"name": "b"}, {"name": "c"}]
+    held = list(owner(cfg).servers)
+    R.label("held-reoffered", "held-reoffered:" + case["form"])
+    R.nontrivial = True
+    offered = [held[k] for k in case["perm"]]
+    if case["bad_at"] is not None:
+        offered.insert(case["bad_at"], {"name": "bad", "port": "not a number"})
+    if case["form"] == "tuple":
+        offered = tuple(offered)
+    route = case["route"]
+    lst = owner(cfg).servers
+    try:
+        if route == "setattr":
+            owner(cfg).servers = offered
+        elif route == "setitem-path":
+            cfg[prefix] = offered
+        elif route == "slice-assign":
+            lst[:] = offered
+        elif route == "iadd":
+            lst += offered
+        else:
+            lst.extend(offered)
+        R.label("held-reoffered:accepted")
+    except Exception as exc:
+        R.label("held-reoffered:rejected")
+        if case["bad_at"] is not None and route in ("setattr", "setitem-path"):
+            if R.check(isinstance(exc, cc.ValidationError), "type", "held-reoffered:" + type(exc).__name__, lambda: "raised %r" % (exc,)):
+                want = "%s[%d].port" % (prefix, case["bad_at"])
+                R.check(exc.ref_path == want, "path", "held-reoffered:offer:" + route, lambda: "rejected offer: error names %r, the offending field is %r" % (exc.ref_path, want))
+    now = list(owner(cfg).servers)
+    for inst in held:
+        positions = [n for n, x in enumerate(now) if x is inst]
+        if len(positions) != 1:
+            continue  # not held any more, or held twice (then either index identifies it)
+        for leaf, bad in (("port", "bad"), ("tls.level", [1])):
+            want = "%s[%d].%s" % (prefix, positions[0], leaf)
+            try:
+                target = inst if leaf == "port" else inst.tls
+                setattr(target, leaf.split(".")[-1], bad)
+                err = None
+            except Exception as exc:
+                err = exc
+            site = "held-reoffered:%s:%s" % (route, "after-rejected-offer" if now == held else "after-accepted-offer")
+            if not R.check(err is not None, "must-raise", site, "a non-number was accepted by an IntField"):
+                continue
+            if not R.check(isinstance(err, cc.ValidationError), "type", site + ":" + type(err).__name__, lambda: "raised %r" % (err,)):
+                continue
+            got = err.ref_path
+            R.check(got == want, "path", site, lambda: "the held items were offered again as %s %r%s via %s; a bad %s on the item now at index %d is reported as %r, not %r" % (
+                case["form"], case["perm"], "" if case["bad_at"] is None else " with a bad entry at %d" % case["bad_at"], route, leaf, positions[0], got, want))
+            R.check(str(err).startswith(got), "text", "starts-with-path", lambda: "message %r does not start with the path %r" % (str(err)[:120], got))
 
 
 def _odd_rejection_case(case, R):
@@ -465,6 +606,10 @@ def _takeover_case(case, R):
 def run_case(case, R):
     if case.get("mode") == "takeover":
         return _takeover_case(case, R)
+    if case.get("mode") == "include-rejection":
+        return _include_rejection_case(case, R)
+    if case.get("mode") == "held-reoffered":
+        return _held_reoffered_case(case, R)
     if case.get("mode") == "offered-instance":
         return _offered_instance_case(case, R)
     if case.get("mode") == "none-item":
@@ -689,7 +834,10 @@ def run_case(case, R):
                         # a rejected whole-list assignment that offers the item again (at another position)
                         chosen = lst[i]
                         try:
-                            ops.set_via(cfg, lpath, [{} for _ in range((i + 1) % 3)] + [chosen, bad_item], "setattr")
+                            offered = [{} for _ in range((i + 1) % 3)] + [chosen, bad_item]
+                            if case["reoffer"] == "tuple":  # (a list field takes lists and tuples alike)
+                                offered = tuple(offered)
+                            ops.set_via(cfg, lpath, offered, "setattr")
                         except Exception:
                             history = ":after-failed-reoffer"
                             R.label("failed-reoffer")
